@@ -53,7 +53,8 @@ def gen_case(seed: int, tier: str, index: int) -> Dict[str, Any]:
         if rng.random() < 0.5:
             # lossy runs: retried requests draw fresh numbers, unsolicited STATP acknowledgements draw while a request waits
             cfg["lossy"] = True
-            cfg["net"].update({"loss": rng.choice([0.05, 0.12, 0.25]), "slow_p": 0.05, "slow_max": rng.choice([0.5, 3.0]), "dup": 0.03})
+            cfg["net"].update({"loss": rng.choice([0.05, 0.12, 0.25]), "slow_p": 0.05, "slow_max": rng.choice([0.5, 3.0]), "dup": 0.03,
+                               "send_error_p": rng.choice([0.0, 0.02, 0.08])})
             for m in ("active", "idle"):
                 cfg["tables"][m].update({"PROTOCOL_TIMEOUT_IN_SECONDS": rng.choice([1, 2]), "PROTOCOL_RETRY_COUNT": rng.choice([2, 4]),
                                          "PING_DEVICE_NOT_RESPONDING_TIMEOUT_IN_SECONDS": 20})
